@@ -1,8 +1,93 @@
 """C02 - debugging never changes what the program computes or leaves patches behind."""
+import json
+import subprocess
+
+import vlib
+import sesslib
 from checks import c03
 
 
+def mt_leg(rep, tier):
+    """Multi-threaded leg (no recorded execution): breakpoints created while a worker thread is in focus,
+    removed after that thread has exited; text must equal the file at every prompt (spec/TracePatch.tla),
+    output and exit status must equal the native run's."""
+    src = vlib.VERIF / "puppets" / "mt" / "mt7.rs"
+    exe = sesslib.build_puppet(src)
+    lines = src.read_text().splitlines()
+    work_line = next(n + 1 for n, l in enumerate(lines) if "COUNT.fetch_add" in l)
+    print_line = next(n + 1 for n, l in enumerate(lines) if l.strip().startswith("println!(\"COUNT="))
+    entry = sesslib.nm_symbols(exe).get("_start", (0, 0))[0]
+    bl = lambda line: {"cmd": "break_line", "file": "mt7.rs", "line": line}
+    rl = lambda line: {"cmd": "remove_line", "file": "mt7.rs", "line": line}
+    shapes = [
+        # the second breakpoint is created while a worker is in focus and removed after all workers are gone
+        [bl(work_line), {"cmd": "start"}, bl(print_line), rl(work_line), {"cmd": "continue"}, rl(print_line), {"cmd": "run_to_exit"}],
+        [bl(work_line), bl(print_line), {"cmd": "start"}, rl(work_line), {"cmd": "continue"}, rl(print_line), {"cmd": "run_to_exit"}],
+        [{"cmd": "break_fn", "name": "work"}, {"cmd": "start"}, {"cmd": "continue"}, bl(print_line),
+         {"cmd": "remove_fn", "name": "work"}, {"cmd": "continue"}, {"cmd": "next"}, rl(print_line), {"cmd": "run_to_exit"}],
+        [bl(work_line), {"cmd": "start"}, {"cmd": "stepi"}, bl(print_line), {"cmd": "continue"}, rl(work_line),
+         {"cmd": "continue"}, rl(print_line), {"cmd": "run_to_exit"}],
+    ]
+    n = 0
+    d = vlib.WORK / "c02mt"
+    d.mkdir(parents=True, exist_ok=True)
+    (d / "TracePatch.cfg").write_text("SPECIFICATION Spec\nINVARIANT Done\nCONSTANT Entry = {%d}\n" % entry)
+    for nt in ([2, 4] if tier == "quick" else [1, 2, 4, 8, 16]):
+        nat = subprocess.run([str(exe), str(nt)], stdout=subprocess.PIPE, text=True, timeout=60)
+        for k, cmds in enumerate(shapes):
+            scr = {"tick": 0, "src": "mt7.rs", "probes": ["text", "tasks"], "cmds": cmds, "args": [str(nt)]}
+            rc, err, obs = sesslib.run_session(exe, scr, f"C02-mt-{nt}-{k}")
+            n += 1
+            end = [o for o in obs if o.get("ev") == "end"]
+            if not end:
+                rep.mismatch("session_died", "session", actual=err[-300:], script=scr, puppet="mt7", threads=nt)
+                continue
+            panics = [o["res"] for o in obs if o.get("ev") == "obs" and o["res"].get("panic")]
+            for pm in panics:
+                rep.mismatch("panic", "session", actual=str(pm)[:300], script=scr, puppet="mt7", threads=nt)
+            evs = []
+            for o in obs:
+                if o.get("ev") != "obs":
+                    continue
+                c, res, after = o["cmd"]["cmd"], o["res"], o.get("after") or {}
+                kinds = [h["hook"] for h in o.get("hooks", [])]
+                ret = res.get("ret") if isinstance(res.get("ret"), (dict, list)) else None
+                e = {"cmd": c, "ok": bool(res.get("ok")), "err": str(res.get("err") or "")[:200], "addrs": [],
+                     "patched": sorted(after["patched"]) if after.get("patched") is not None else [-1], "said": "none", "k": o["k"]}
+                if c.startswith("break_"):
+                    e["cmd"] = "break"
+                    e["addrs"] = sorted({v["link"] for v in (ret or [])}) if e["ok"] else []
+                elif c.startswith("remove_"):
+                    e["cmd"] = "remove"
+                    e["addrs"] = sorted({v["link"] for v in (ret or [])}) if isinstance(ret, list) else []
+                elif c in ("start", "continue", "stepi", "step", "next", "finish"):
+                    e["said"] = "exit" if ("exit" in kinds or (isinstance(ret, dict) and ret.get("kind") == "exit")) else "stop"
+                evs.append(e)
+            tf = d / f"t-{nt}-{k}.ndjson"
+            vlib.ndjson_write(tf, evs)
+            r = vlib.tlc("TracePatch", str(d / "TracePatch.cfg"), workers=1, env={"TRACE": str(tf)}, timeout=120, heap="2g",
+                         name=f"c02mt-{nt}-{k}")
+            v = vlib.printed(r.out, "VERDICT")
+            if r.error or not v:
+                raise vlib.ToolError(f"TracePatch could not judge: {r.error}\n{r.out[-1500:]}")
+            for x in v[-1]["viol"]:
+                rep.mismatch(x["class"], x["action"], expected=x["expected"], actual=x["actual"], at_event=evs[x["k"] - 1]["k"],
+                             script=scr, puppet="mt7", threads=nt)
+            last = [o for o in obs if o.get("ev") == "obs"][-1]["res"]
+            if last.get("ok") and isinstance(last.get("ret"), dict) and last["ret"].get("kind") == "exit":
+                if end[-1]["stdout"] != nat.stdout:
+                    rep.mismatch("output_differs", "session", expected=nat.stdout, actual=end[-1]["stdout"], script=scr, puppet="mt7", threads=nt)
+                if last["ret"].get("code") != nat.returncode:
+                    rep.mismatch("exit_status_differs", "session", expected=nat.returncode, actual=last["ret"].get("code"), script=scr, puppet="mt7", threads=nt)
+            else:
+                rep.mismatch("run_to_exit_failed", "session", actual=str(last)[:300], script=scr, puppet="mt7", threads=nt)
+    return n
+
+
 def run(rep, tier, replay):
-    return c03.run_family(rep, tier, replay, "C02", mix="all", probes=["text"], by_kinds=True, run_out=True,
+    extra = {}
+    if not replay:
+        extra["mt_sessions"] = mt_leg(rep, tier)
+    return c03.run_family(rep, tier, replay, "C02", mix="all", probes=["text"], by_kinds=True, run_out=True, extra_cov=extra,
                           quick=dict(maxcmd=14, maxbps=3, ncands=4, nhist=8, maxbk=5, signals=True, extras=True),
                           thorough=dict(maxcmd=20, maxbps=4, ncands=6, nhist=60, maxbk=8, signals=True, extras=True))
